@@ -23,13 +23,21 @@ fn fwd(op: &Op, _ctx: &dyn Context, operands: &mut dyn CoordinateSet) -> usize {
     let latc = op.params.real["latc"].to_radians();
     let lonc = op.params.real["lonc"].to_radians();
 
-    let alpha = op.params.real["alpha"];
-    let ninety = alpha == 90_f64;
-    let alpha = alpha.to_radians();
-
     // Detect the Laborde case by a missing gamma_c
     let mut gamma_c = op.params.real["gamma_c"];
     let laborde = gamma_c.is_nan();
+
+    // The initial line with azimuth alpha is also the line with azimuth alpha ± 180.
+    // The Guidance Note's formulas (gamma_0 from an arcsine) need the representation
+    // heading north, and the same half turn of the rectified grid angle then leaves
+    // the projected coordinates unchanged
+    let mut alpha = op.params.real["alpha"];
+    if alpha.to_radians().cos() < 0.0 {
+        alpha -= 180.0;
+        gamma_c -= 180.0;
+    }
+    let ninety = alpha == 90_f64;
+    let alpha = alpha.to_radians();
     gamma_c = gamma_c.to_radians();
 
     // Discern between Hotine variant A and B cases, and the Laborde
@@ -127,13 +135,18 @@ fn inv(op: &Op, _ctx: &dyn Context, operands: &mut dyn CoordinateSet) -> usize {
     let latc = op.params.real["latc"].to_radians();
     let lonc = op.params.real["lonc"].to_radians();
 
-    let alpha = op.params.real["alpha"];
+    // Detect the Laborde case by a missing gamma_c
+    let mut gamma_c = op.params.real["gamma_c"];
+    let laborde = gamma_c.is_nan();
+
+    // See the forward case: the initial line is represented heading north
+    let mut alpha = op.params.real["alpha"];
+    if alpha.to_radians().cos() < 0.0 {
+        alpha -= 180.0;
+        gamma_c -= 180.0;
+    }
     let ninety = alpha == 90_f64;
     let alpha = alpha.to_radians();
-
-    // Detect the Laborde case by a missing gamma_c
-    let gamma_c = op.params.real["gamma_c"];
-    let laborde = gamma_c.is_nan();
 
     // Discern between Hotine variant A and B cases, and the Laborde
     // case, which we currently approximate by Hotine with gamma_c = alpha
